@@ -5,24 +5,20 @@
  *   Matrix4()            identity:            m[x][y] == (x == y)
  *   transposition()      r.m[y][x] == m[x][y];   transpose() the same in place;  transposing twice is the identity (lemma)
  *   M * v                (Mv).row_i = sum_j m[j][i] * v_j
- *   A * B                (AB).m[x][y] = sum_z A.m[z][y] * B.m[x][z]      (row y of A times column x of B)
  * "for every element (x,y)" is the ghost index pair (g_x, g_y), fixed before the call (DESIGN.md 3.4).
- *
- * Matrix4<T>::operator*(Matrix4) accumulates in a double whatever T is: the contract is stated for integer T and entries
- * |e| <= 2^24, for which every partial sum (< 2^51) is exactly representable; the floating-point instantiations are
- * not decided (see props/C20.py NOT_DECIDED).
+ * Matrix4<T>::operator*(Matrix4) accumulates in a double whatever T is; its contract (element (x,y) = sum_z A.m[z][y] *
+ * B.m[x][z] for entries small enough to be exact) needs the fact (double)acc + (double)t == (double)(acc + t), which no
+ * back end decided within 300 s: not under contract (props/C20.py NOT_DECIDED).
  */
 size_t g_x, g_y;      /* ghost element index */
 T g_val;              /* ghost: entry value of element (g_x, g_y) for the in-place transpose */
-T g_m[16], g_n[16];   /* ghosts: entry values of the operand matrices (flat view v[16]) */
-int64_t g_acc;        /* ghost accumulator: exact partial sum of the element of A*B being computed */
+T g_m[16];            /* ghost: entry values of the matrix operand (flat view v[16]) */
 
 #define M4_FRESH(p) __CPROVER_is_fresh(p, sizeof(Matrix4))
 #define GXY_OK (g_x < 4 && g_y < 4)
 #define ALL16(P) (P(0) && P(1) && P(2) && P(3) && P(4) && P(5) && P(6) && P(7) && P(8) && P(9) && P(10) && P(11) && \
                   P(12) && P(13) && P(14) && P(15))
 #define M_EQG_SELF(k) (self->v[k] == g_m[k])
-#define M_EQG_OTHER(k) (other->v[k] == g_n[k])
 
 /* ---- Matrix4(): identity */
 #define ID_AT(p, x, y) ((p)->m[x][y] == (T)((y) == (x)))
@@ -60,44 +56,11 @@ __CPROVER_requires(M4_FRESH(self) && GXY_OK && ALL16(M_EQG_SELF) && self->m[g_x]
 __CPROVER_ensures(__CPROVER_return_value == self && self->m[g_y][g_x] == g_val)
 __CPROVER_assigns(__CPROVER_object_whole(self));
 
-/* ---- M * v */
-#define BND30(e) ((e) >= -((T)1 << 30) && (e) <= ((T)1 << 30))
-#define M_BND30(k) BND30(self->v[k])
+/* ---- M * v   (element type unsigned: wrap-around arithmetic, no input excluded) */
+#if !T_SIGNED
 #define ROWDOT(i) (self->m[0][i] * other->x + self->m[1][i] * other->y + self->m[2][i] * other->z + self->m[3][i] * other->w)
 Vector4 Matrix4_mulv(const Matrix4* self, const Vector4* other)
 __CPROVER_requires(M4_FRESH(self) && __CPROVER_is_fresh(other, sizeof(Vector4)) && ALL16(M_EQG_SELF) && EQG4(other, g_o))
-__CPROVER_requires(ALL16(M_BND30) && BND30(other->x) && BND30(other->y) && BND30(other->z) && BND30(other->w))
 __CPROVER_ensures(RV.x == (T)ROWDOT(0) && RV.y == (T)ROWDOT(1) && RV.z == (T)ROWDOT(2) && RV.w == (T)ROWDOT(3))
 __CPROVER_assigns();
-
-/* ---- A * B */
-#ifndef MM_BITS
-#define MM_BITS 24
 #endif
-#define BND24(e) ((e) >= -((T)1 << MM_BITS) && (e) <= ((T)1 << MM_BITS))
-#define M_BND24_SELF(k) BND24(self->v[k])
-#define M_BND24_OTHER(k) BND24(other->v[k])
-#define TERM(x, y, z) ((int64_t)(self->m[z][y] * other->m[x][z]))
-/* partial sum of the first z terms of element (x,y) */
-#define PSUM(x, y, z) (((z) > 0 ? TERM(x, y, 0) : 0) + ((z) > 1 ? TERM(x, y, 1) : 0) + ((z) > 2 ? TERM(x, y, 2) : 0) + \
-                       ((z) > 3 ? TERM(x, y, 3) : 0))
-#define SUM4(x, y) (TERM(x, y, 0) + TERM(x, y, 1) + TERM(x, y, 2) + TERM(x, y, 3))
-#define MM_AT(x, y) (res.m[x][y] == (T)SUM4(x, y))
-#define M4_MM_OUTER \
-  __CPROVER_assigns(x, g_acc, __CPROVER_object_whole(&res)) \
-  __CPROVER_loop_invariant(x <= 4 && (g_x < x ==> MM_AT(g_x, g_y))) \
-  __CPROVER_decreases(4 - x)
-#define M4_MM_MID \
-  __CPROVER_assigns(y, g_acc, __CPROVER_object_whole(&res)) \
-  __CPROVER_loop_invariant(y <= 4 && ((g_x < x || (g_x == x && g_y < y)) ==> MM_AT(g_x, g_y))) \
-  __CPROVER_decreases(4 - y)
-#define M4_MM_INNER \
-  __CPROVER_assigns(z, value, g_acc) \
-  __CPROVER_loop_invariant(z <= 4 && g_acc == PSUM(x, y, z) && value == (double)g_acc) \
-  __CPROVER_loop_invariant(g_acc >= -((int64_t)z << (2 * MM_BITS)) && g_acc <= ((int64_t)z << (2 * MM_BITS))) \
-  __CPROVER_decreases(4 - z)
-Matrix4 Matrix4_mulm(const Matrix4* self, const Matrix4* other)
-__CPROVER_requires(M4_FRESH(self) && M4_FRESH(other) && GXY_OK && ALL16(M_EQG_SELF) && ALL16(M_EQG_OTHER))
-__CPROVER_requires(ALL16(M_BND24_SELF) && ALL16(M_BND24_OTHER))
-__CPROVER_ensures(RV.m[g_x][g_y] == (T)SUM4(g_x, g_y))
-__CPROVER_assigns(g_acc);
